@@ -5,7 +5,9 @@ relative order of the hashes of equal height), then delivers blocks in any order
 of times. TLC checks NoStrandedOrphan / StoredClosed on the specification and exports every
 transition; harness/cmd/forks replays each path against a real protocol.Chain (real signed
 blocks, in-memory store) in worker processes: a node that dies, blocks, strands an orphan or
-stores a different set than in-order delivery would is a violation.
+stores a different set than in-order delivery would is a violation. The casper family
+(specs/chain/CasperNode.tla) adds the same comparison when checkpoints get justified and
+finalized while orphans are being connected (orphans that finality made unconnectable).
 """
 import chain_lib
 
@@ -13,16 +15,12 @@ import chain_lib
 def run(ctx):
     quick = ctx.tier == "quick"
     cfg = "cfg/ForksGen.quick.cfg" if quick else "cfg/ForksGen.thorough.cfg"
-    o = chain_lib.run_forks(ctx, cfg, epochs=(100, 2) if quick else (100, 2, 3), timeout=3000)
-    r = o["tlc"]
-    ctx.finish("model_checking", dict(
-        states=r.distinct, transitions=r.generated,
-        traces_validated_against_impl=o["cases"], samples=o["samples"],
-        process_block_calls=o["delivers"], distinct_paths=o["distinct"],
-        divergences_attributed_to_other_properties=o["other"], exhaustive=True,
-        rule="every transition of Forks.tla within the cfg bounds (all block trees, all hash orders among equal heights, "
-             "all delivery orders with redelivery), each replayed with its path for every epoch length listed",
-    ), assumptions=[
-        "blocks are valid coinbase-only blocks signed by the single federation key (not the node's key), so no vote is ever produced",
-        "orphan-pool limit (256) and expiry (60 min) are not reached",
-    ])
+    parts = [chain_lib.run_forks(ctx, cfg, epochs=(100, 2)), chain_lib.run_casper(ctx)]
+    chain_lib.finish_chain(ctx, parts,
+        rule="every transition of Forks.tla (all block trees, all hash orders among equal heights, all delivery orders with "
+             "redelivery; epoch lengths 100 and 2) and of CasperNode.tla (configs listed) within the cfg bounds, each replayed "
+             "with its path on a real node; stored set, orphan pool and ProcessBlock results compared",
+        assumptions=[
+            "blocks are valid coinbase-only blocks signed by a federation key",
+            "orphan-pool limit (256) and expiry (60 min) are not reached",
+        ])
